@@ -110,14 +110,16 @@ fn build(obs: &Value, owner: &[usize], nm: usize, scheme: usize, cluster: bool) 
         let a = c["a"].as_u64().unwrap() as usize;
         let b = c["b"].as_u64().unwrap() as usize;
         let l = Duration::from_millis(1 << k);
-        let ch = if k % 3 != 2 { Some(Channel::new(ChannelMetrics::new(0, l, Duration::ZERO, ChannelDropBehaviour::Drop))) } else { None };
+        // 512 bit/s: a 64-byte message occupies a channel for exactly one second, so that messages sent from
+        // both ends of a chain at the same instant overlap on every hop (each direction has its own channel)
+        let ch = if k % 3 != 2 { Some(Channel::new(ChannelMetrics::new(512, l, Duration::ZERO, ChannelDropBehaviour::Drop))) } else { None };
         let (ga, gb) = (gates[a - 1].clone(), gates[b - 1].clone());
         let has_ch = ch.is_some();
         let r = catch_unwind(AssertUnwindSafe(|| ga.connect(gb, ch)));
         let exp = c["res"].as_str().unwrap();
         match (r.is_ok(), exp) {
             (true, "ok") => {
-                lat.insert((a.min(b), a.max(b)), if has_ch { l } else { Duration::ZERO });
+                lat.insert((a.min(b), a.max(b)), if has_ch { l + Duration::from_secs(1) } else { Duration::ZERO });
             }
             (true, "noop") => {}
             (false, "panic_self") => {}
